@@ -38,6 +38,8 @@ declarations:
 - decl: const std::string &nameref()
 - decl: const std::string *nameptrC() +owner(caller)
 - decl: const std::string *nameptrL() +owner(library)
+- decl: std::string emptyName()
+- decl: const std::string *emptyPtrC() +owner(caller)
 - decl: int *newArray(int n) +owner(caller)+dimension(n)
 - decl: int *libArray(int n) +dimension(n)
 - decl: int *poolGet(int n) +owner(caller)+dimension(n)+free_pattern(pool_release)
@@ -82,6 +84,8 @@ std::string name();
 const std::string &nameref();
 const std::string *nameptrC();
 const std::string *nameptrL();
+std::string emptyName();
+const std::string *emptyPtrC();
 int *newArray(int n);
 int *libArray(int n);
 int *poolGet(int n);
@@ -142,6 +146,8 @@ std::string name() { return std::string(LONGTEXT); }
 const std::string &nameref() { return *libstr; }
 const std::string *nameptrC() { return new std::string(LONGTEXT " (caller)"); }
 const std::string *nameptrL() { return libstr; }
+std::string emptyName() { return std::string(); }
+const std::string *emptyPtrC() { return new std::string(); }
 int *newArray(int n) { int *p = (int *) std::malloc(sizeof(int) * (n ? n : 1)); for (int i = 0; i < n; i++) p[i] = i + 1; return p; }
 static int pool[4][8]; static int pool_used[4];
 extern "C" { int vt_pool_live = 0; }
@@ -224,6 +230,8 @@ int main(int argc, char **argv) {
             else if (op[1] == 'R') OWN_nameref_bufferify(&sctx);
             else if (op[1] == 'C') OWN_nameptr_c_bufferify(&sctx);
             else if (op[1] == 'L') OWN_nameptr_l_bufferify(&sctx);
+            else if (op[1] == 'E') OWN_empty_name_bufferify(&sctx);
+            else if (op[1] == 'F') OWN_empty_ptr_c_bufferify(&sctx);
             else if (op[1] == 'x') { char *buf = (char *) malloc(sctx.elem_len + 1); OWN_ShroudCopyStringAndFree(&sctx, buf, sctx.elem_len); val = (long) sctx.elem_len; buf[sctx.elem_len] = 0; val = val * 1000 + (long) strlen(buf); free(buf); }
             break;
         case 'A':
@@ -338,6 +346,10 @@ program drv
         str = nameptr_c()
       case ('L')
         str = nameptr_l()
+      case ('E')
+        str = empty_name()
+      case ('F')
+        str = empty_ptr_c()
       end select
       val = len(str) * 1000 + len_trim(str)
       deallocate(str)
@@ -513,7 +525,7 @@ def enabled(m):
                 if m.h[t] is None and not x.get("dtored") and not x.get("alias"):
                     ops.append("y%d%d" % (s, t))
     if m.s is None:
-        ops += ["SN", "SR", "SC", "SL"]
+        ops += ["SN", "SR", "SC", "SL", "SE", "SF"]
     else:
         ops.append("Sx")
     if m.a is None:
@@ -564,7 +576,7 @@ def step(m, op):
         m.h[t]["alias"] = True
     elif k == "S":
         if op[1] == "x":
-            n = {"N": 59, "R": 69, "C": 68, "L": 69}[m.s]
+            n = {"N": 59, "R": 69, "C": 68, "L": 69, "E": 0, "F": 0}[m.s]
             val = n * 1000 + n
             m.s = None
         else:
@@ -600,6 +612,8 @@ def expected_line(m, op, val):
             cxx += 1
     if m.s in ("N", "C"):
         cxx += 2  # the std::string object and its character buffer
+    if m.s in ("E", "F"):
+        cxx += 1  # an empty std::string owns no character buffer
     if m.v == "f":
         cxx += 2  # the std::vector object and its element buffer
     mal = 1 if m.a == "n" else 0
@@ -613,7 +627,7 @@ def expected_line(m, op, val):
             hs.append("h%d=0/0" % s)
         else:
             hs.append("h%d=1/%d" % (s, 1 if x["owner"] == "caller" else 0))
-    sidt = {"N": 1, "C": 1, "R": 0, "L": 0}
+    sidt = {"N": 1, "C": 1, "R": 0, "L": 0, "E": 1, "F": 1}
     sfield = "s=%d/%d" % (1 if m.s else 0, sidt[m.s] if m.s else 0)
     afield = "a=%d/%d" % (1 if m.a else 0, 1 if m.a in ("n", "p") else 0)
     vfield = "v=%d/%d" % (1 if m.v else 0, 1 if m.v else 0)
